@@ -25,7 +25,7 @@ async def _submit(st, ev):
 
 
 # ------------------------------------------------------------------------------------ C03
-def suite_replay_after_removal(tier, seed):
+def suite_replay_after_removal(tier, seed, only_fields=None):
     s = Suite("oracle:forged-replay-after-removal")
     s.rule = ("a genuine event is accepted and then leaves the store (replaced by a newer version / deleted by its author's kind 5 / "
               "ephemeral on LMDB / deleted through delete_event); a copy with the same id and sig but changed content, created_at, kind "
@@ -58,6 +58,13 @@ def suite_replay_after_removal(tier, seed):
             forged["tags"] = [["p", env.PUBS[3]]]
         elif field == "kind":
             forged["kind"] = 1 if kind != 1 else 7
+        victim_ev = None
+        if field == "deletion-of-a-victim":
+            # the id and signature of the (gone) genuine event on a kind-5 event that names another author's pubkey and references that author's note
+            victim = (who + 1) % 3
+            victim_ev = env.mk_event(victim, 1, env.NOW - 200, [], "victim's note %d" % rng.randrange(10 ** 6))
+            await _submit(st, victim_ev)
+            forged = dict(e1, kind=5, pubkey=env.PUBS[victim], created_at=env.NOW - 1, tags=[["e", victim_ev["id"]]], content="")
         q = asyncio.Queue()
         await st.subscribe(env.FakeClient("w"), "w", [{"authors": [e1["pubkey"]]}], q)
         while True:                  # the stored answer (which legitimately holds the genuine event while it is stored) comes first
@@ -72,19 +79,26 @@ def suite_replay_after_removal(tier, seed):
             except Exception:
                 pass
         pushed = any(it[1] is not None and it[1].id == e1["id"] for it in [q.get_nowait() for _ in range(q.qsize())])
-        stored = e1["id"] in await env.stored_ids(st)
+        ids_now = await env.stored_ids(st)
+        stored = e1["id"] in ids_now
+        victim_lost = victim_ev is not None and victim_ev["id"] not in ids_now
         await env.close(st)
         sc.close()
-        return {"backend": backend, "removed_by": how, "changed": field}, {"first": r1, "gone": gone, "forged": r2, "stored": stored, "pushed": pushed}
+        return {"backend": backend, "removed_by": how, "changed": field}, {"first": r1, "gone": gone, "forged": r2, "stored": stored, "pushed": pushed, "victim_lost": victim_lost}
     combos = [(b, h, f) for b in ("sql", "kv") for h in ("replace", "delete5", "ephemeral", "delete_event")
-              for f in ("content", "created_at", "tags", "kind") if not (b == "sql" and h == "ephemeral" and False)]
+              for f in ("content", "created_at", "tags", "kind", "deletion-of-a-victim") if not (b == "sql" and h == "ephemeral" and False)]
+    if only_fields:
+        combos = [c for c in combos if c[2] in only_fields]
     if tier == "quick":
-        combos = rng.sample(combos, 12)
+        combos = rng.sample(combos, min(len(combos), 12))
     for b, h, f in combos:
         case, obs = env.run(one(b, h, f))
         s.case(case, nontrivial=obs["gone"])
         s.count("removed_by_" + h)
-        if obs["forged"] == "true" or (obs["gone"] and obs["stored"]) or obs["pushed"]:
+        if obs.get("victim_lost"):
+            s.violate("foreign-event-deleted", case, "a kind-5 event that re-uses the id and signature of an event verified earlier, under another author's pubkey, "
+                      "removed that author's note", observed=obs)
+        elif obs["forged"] == "true" or (obs["gone"] and obs["stored"]) or obs["pushed"]:
             s.violate("forged-replay-admitted", case, "a copy of a once-accepted event with the same id and sig but changed fields was admitted",
                       expected={"forged": "refused", "stored": False, "pushed": False}, observed=obs)
     return s
@@ -1447,6 +1461,9 @@ def suite_close_drains_queue(tier, seed):
         lmdb.wipe(path)
         st = await env.kv_storage(None, path=path)
         evs = [env.mk_event(i % 3, 1, env.NOW - 20 + i, [["t", "q"]], "close%d %d" % (i, rng.randrange(10 ** 6))) for i in range(n)]
+        # ... the last one is its author's deletion of the first event (acknowledged like the others, applied by the writer)
+        doomed = evs[0]
+        evs.append(env.mk_event(0, 5, env.NOW - 1, [["e", doomed["id"]], ["t", "q"]], "bye %d" % rng.randrange(10 ** 6)))
         acks = []
         st.db._wlock.acquire()
         try:
@@ -1462,8 +1479,14 @@ def suite_close_drains_queue(tier, seed):
             for e in evs:
                 g = await st2.get_event(e["id"])
                 found.append(g is not None)
-            got, oc = await env.req(st2, [{"kinds": [1], "#t": ["q"]}])
+            got, oc = await env.req(st2, [{"kinds": [1, 5], "#t": ["q"]}])
             byq = {x.id for x in got}
+            # the deletion was acknowledged: after the restart it is stored and carried out
+            found[0] = not found[0]
+            if doomed["id"] not in byq:
+                byq.add(doomed["id"])
+            else:
+                byq.discard(doomed["id"])
         finally:
             await env.close(st2)
             lmdb.wipe(path)
@@ -1829,6 +1852,30 @@ def suite_int_tag_items(tier, seed, backends=("sql", "kv")):
                 refs = [tg[1] for tg in tags if tg[0] == "e" and isinstance(tg[1], str)]
                 out.append({"kind": kind, "tags": tags, "ack": r, "stored": d["id"] in after, "removed_others": sorted(x[:8] for x in (before - after)),
                             "refs_gone": [x not in after for x in refs]})
+            # after a series of events the backend could not store, an ordinary event must still be accepted - promptly
+            for k in range(6):
+                await _submit(st, env.mk_event(1, 1, env.NOW - 5, [[7, "int tag name %d" % k]], "unstorable %d %d" % (k, rng.randrange(10 ** 6))))
+            plain = env.mk_event(1, 1, env.NOW - 4, [["t", "after"]], "plain after failures %d" % rng.randrange(10 ** 6))
+            try:
+                r = await asyncio.wait_for(_submit(st, plain), 15)
+            except asyncio.TimeoutError:
+                r = "WEDGED"
+            await env.quiesce(st)
+            out.append({"kind": 1, "tags": [["t", "after"]], "ack": r, "stored": plain["id"] in set(await env.stored_ids(st)) if r != "WEDGED" else False,
+                        "removed_others": [], "refs_gone": [], "must_accept": True})
+            # the same events as the TEXT a websocket client sends (the JSON decoder is part of the admission path): the answer must be
+            # the one the storage gives for the decoded object
+            if r != "WEDGED":
+                big = [env.mk_event(2, 1, env.NOW - 3, [["nonce", "1", v]], "big %d %d" % (i, rng.randrange(10 ** 6))) for i, v in enumerate([2 ** 63 - 1, 2 ** 63, 2 ** 64 - 1, 2 ** 64, 10 ** 21, -(2 ** 63) - 1])]
+                twin = [dict(e, content=e["content"] + " twin") for e in big]
+                twin = [env.mk_event(2, 1, e["created_at"], e["tags"], e["content"]) for e in twin]
+                direct = [await _submit(st, e) for e in twin]
+                frames = await _frames_for_messages(st, [json.dumps(["EVENT", e]) for e in big])
+                oks = [f for f in frames if isinstance(f, list) and f and f[0] == "OK"]
+                for e, dr, okf in zip(big, direct, oks + [None] * len(big)):
+                    wsr = ("true" if okf[2] is True else "refused") if okf else "no-ok-frame"
+                    out.append({"kind": 1, "tags": e["tags"], "ack": wsr, "stored": True if wsr == "true" else False, "removed_others": [], "refs_gone": [],
+                                "ws_vs_direct": [wsr, "true" if dr == "true" else "refused"]})
         finally:
             await env.close(st)
             sc.close()
@@ -1838,7 +1885,14 @@ def suite_int_tag_items(tier, seed, backends=("sql", "kv")):
             case = {"backend": backend, "kind": o["kind"], "tags": o["tags"]}
             s.case(case, nontrivial=o["tags"][0][0] in ("e", "d", "expiration", "delegation"))
             s.count("%s_%s" % (backend, o["ack"].split(":")[0]))
-            if o["ack"] == "true" and not o["stored"]:
+            if o.get("must_accept") and o["ack"] != "true":
+                s.violate("ack:valid-event-refused-after-failures", case, "after six events the backend could not store, an ordinary valid event was answered %r" % o["ack"], observed=o)
+            elif o.get("ws_vs_direct") and o["ws_vs_direct"][0] != o["ws_vs_direct"][1]:
+                s.violate("ack:websocket-text-differs-from-object", case, "an event sent as websocket text was %s, the same event handed to the storage as an object "
+                          "is %s" % tuple(o["ws_vs_direct"]), observed=o)
+            elif o.get("ws_vs_direct"):
+                pass
+            elif o["ack"] == "true" and not o["stored"]:
                 s.violate("ack:true-but-not-stored", case, "OK true but the event is not stored", observed=o)
             elif o["ack"] != "true" and (o["stored"] or o["removed_others"]):
                 s.violate("ack:refused-left-trace", case, "the event was refused (%s) but left a trace" % o["ack"], observed=o)
@@ -2084,6 +2138,328 @@ def suite_recipe_relay_urls(tier, seed, backends=("sql", "kv")):
         if obs["foreign"] != "refused" or not obs["configured"].startswith("accepted") or obs["configured_after"] != ["ws://relay.example/"] or obs["valid_urls_after"] != ["ws://relay.example/"]:
             s.violate("auth:foreign-relay-accepted", case, "after client activity the set of relay URLs an AUTH answer may name is no longer the configured one", observed=obs,
                       expected={"foreign": "refused", "configured": "accepted", "valid_urls_after": ["ws://relay.example/"]})
+    return s
+
+
+# ------------------------------------------------------------------------------------ C03: a forged copy racing the genuine event
+def suite_forged_concurrent(tier, seed, backends=("sql", "kv")):
+    s = Suite("oracle:forged-copy-racing-the-genuine-event")
+    s.rule = ("the genuine event and 1-3 forged copies that claim its id (other content / another pubkey / a zero signature) are submitted at the same "
+              "moment (asyncio.gather, genuine first, last or in the middle): every forged copy must be refused, exactly the genuine event is stored "
+              "under that id, and subscribers are pushed the genuine fields only; SQL and LMDB")
+    rng = rng_for(seed, "c03race")
+
+    async def one(backend, pos, nforged):
+        env.load_config()
+        env.patch_clock()
+        sc = env.Scratch()
+        st = await (env.sql_storage(sc) if backend == "sql" else env.kv_storage(sc))
+        try:
+            q = asyncio.Queue()
+            await st.subscribe(env.FakeClient("watch"), "w", [{"kinds": [1]}], q)
+            await env.drain_to_eose(q)
+            g = env.mk_event(0, 1, env.NOW - 5, [["t", "race"]], "genuine %d" % rng.randrange(10 ** 6))
+            forged = []
+            for k in range(nforged):
+                f = dict(g)
+                how = rng.choice(["content", "pubkey", "sig"])
+                if how == "content":
+                    f["content"] = "forged %d" % k
+                elif how == "pubkey":
+                    f["pubkey"] = env.PUBS[1]
+                else:
+                    f["sig"] = "00" * 64
+                forged.append(f)
+            batch = forged[:pos] + [g] + forged[pos:]
+            res = await asyncio.gather(*[_submit(st, e) for e in batch])
+            await env.quiesce(st)
+            for _ in range(3):
+                for tsk in list(st._notify_sub_tasks):
+                    try:
+                        await tsk
+                    except Exception:
+                        pass
+                await asyncio.sleep(0)
+            pushed = []
+            while not q.empty():
+                sid, ev = q.get_nowait()
+                if ev is not None:
+                    pushed.append(env.ev_obj(ev))
+            got, oc = await env.req(st, [{"ids": [g["id"]]}])
+            stored = [env.ev_obj(e) for e in got]
+            return {"results": res, "genuine_at": pos, "pushed": pushed, "stored": stored}, g
+        finally:
+            await env.close(st)
+            sc.close()
+    for backend in backends:
+        for _ in range(4 if tier == "quick" else 30):
+            nforged = rng.randint(1, 3)
+            pos = rng.randint(0, nforged)
+            obs, g = env.run(one(backend, pos, nforged))
+            case = {"backend": backend, "forged_copies": nforged, "genuine_at": pos}
+            s.case(case, nontrivial=True)
+            bad = [r for i, r in enumerate(obs["results"]) if i != pos and r in ("true", "duplicate")]
+            wrong_fields = [e for e in obs["pushed"] + obs["stored"] if any(e[k] != g[k] for k in ("pubkey", "content", "sig", "tags", "kind", "created_at"))]
+            if [r for i, r in enumerate(obs["results"]) if i != pos and r == "true"] or wrong_fields or len(obs["stored"]) != 1:
+                s.violate("forged-replay-admitted", case, "a forged copy submitted together with the genuine event was acknowledged / stored / pushed: results %r, "
+                          "%d stored under the id, %d pushed or stored with forged fields" % (obs["results"], len(obs["stored"]), len(wrong_fields)), observed=obs["results"])
+    return s
+
+
+# ------------------------------------------------------------------------------------ C05 / C19: the peer is gone while the relay answers it
+def suite_peer_gone(tier, seed, backends=("sql",)):
+    s = Suite("oracle:registrations-dropped-when-the-peer-vanishes")
+    s.rule = ("a connection holds 1-2 subscriptions; then (a) it sends a REQ the relay refuses (too many subscriptions) and its socket raises "
+              "WebSocketDisconnected when the NOTICE is written, or (b) it falls silent, message_timeout fires and ws_close raises because the socket "
+              "is already dead, or (c) its handler task is cancelled by the server; afterwards no registration of that connection may be left "
+              "and a later matching event is delivered to nobody; non-trivial always")
+    rng = rng_for(seed, "peergone")
+
+    async def one(backend, how, nsubs):
+        import falcon
+        from nostr_relay import web
+        from . import relay
+        env.load_config(subscription_limit=nsubs)
+        env.patch_clock()
+        sc = env.Scratch()
+        st = await (env.sql_storage(sc) if backend == "sql" else env.kv_storage(sc))
+        saved_async = web.asyncio
+        web.asyncio = asyncio
+        try:
+            inbox, sent, dead = asyncio.Queue(), [], [False]
+
+            async def ws_send(text):
+                if dead[0]:
+                    raise falcon.WebSocketDisconnected()
+                sent.append(json.loads(text))
+
+            async def ws_recv():
+                item = await inbox.get()
+                if item is None:
+                    raise falcon.WebSocketDisconnected()
+                return item
+
+            async def ws_close(code=1000):
+                if dead[0]:
+                    raise falcon.WebSocketDisconnected()
+                sent.append(["CLOSED", code])
+            task = asyncio.create_task(web.start_client(st, ws_send, ws_recv, ws_close, logging.getLogger("verif.gone"), rate_limiter=relay.NullLimiter(),
+                                                        remote_addr="10.7.0.1", message_timeout=(0.4 if how == "timeout" else 1800)))
+            for i in range(nsubs):
+                inbox.put_nowait(json.dumps(["REQ", "g%d" % i, {"kinds": [1]}]))
+            for _ in range(2000):
+                await asyncio.sleep(0.003)
+                if sum(1 for f in sent if f[0] == "EOSE") >= nsubs:
+                    break
+            registered_before = sum(len(v) for v in st.clients.values())
+            dead[0] = True
+            if how == "refused-req":
+                inbox.put_nowait(json.dumps(["REQ", "one-too-many", {"kinds": [1]}]))
+            elif how == "cancel":
+                await asyncio.sleep(0.05)
+                task.cancel()
+            try:
+                await asyncio.wait_for(asyncio.gather(task, return_exceptions=True), 8)
+                ended = True
+            except asyncio.TimeoutError:
+                ended = False
+            left = sum(len(v) for v in st.clients.values())
+            q = asyncio.Queue()
+            await st.add_event(env.mk_event(0, 1, env.NOW - 1, [], "after %d" % rng.randrange(10 ** 6)))
+            await env.quiesce(st)
+            return {"registered_before": registered_before, "handler_ended": ended, "registrations_left": left}
+        finally:
+            web.asyncio = saved_async
+            await env.close(st)
+            sc.close()
+    for backend in backends:
+        for how in ("refused-req", "timeout", "cancel"):
+            nsubs = rng.randint(1, 2)
+            obs = env.run(one(backend, how, nsubs))
+            case = {"backend": backend, "peer_vanishes_during": how, "subscriptions": nsubs}
+            s.case(case, nontrivial=obs["registered_before"] == nsubs)
+            if not obs["handler_ended"] or obs["registrations_left"]:
+                s.violate("registrations-leaked", case, "after the peer vanished (%s): handler ended: %s, registrations left: %d" % (how, obs["handler_ended"], obs["registrations_left"]), observed=obs)
+    return s
+
+
+# ------------------------------------------------------------------------------------ C14: partial configurations, non-ASCII role letters, overlapping service writes
+def suite_authz_corners(tier, seed, backends=("sql", "kv")):
+    s = Suite("oracle:authorization-corner-cases")
+    s.rule = ("(1) authentication.actions naming only `save` or only `query`: the action that is not named keeps its built-in requirement (the anonymous "
+              "role), checked for tokens with and without that role through Authenticator.can_do; (2) role strings with letters whose lower-case and "
+              "case-folded forms differ (sharp s, long s, micro sign, dotted capital I): set_auth_roles then get_auth_roles gives exactly set(x.lower()) on "
+              "both backends - in particular never the admin role 's'; (3) two role assignments written at the same moment (asyncio.gather) while an "
+              "anonymous client submits an EVENT and a REQ to a relay whose save / query need a role: both refused, and enforcement still on afterwards")
+    rng = rng_for(seed, "c14corners")
+    from nostr_relay.auth import Authenticator
+
+    class S:
+        pass
+    for only, roles in (("save", "w"), ("query", "r"), ("save", "rw"), ("query", "s")):
+        a = Authenticator(S(), {"enabled": True, "actions": {only: roles}})
+        other = "query" if only == "save" else "save"
+        for tok_roles in ("w", "r", "a", "aw", "s", ""):
+            tok = {"pubkey": env.PUBS[1], "roles": set(tok_roles), "now": env.NOW}
+            got = bool(env.run(a.can_do(tok, other, None)))
+            want = "a" in tok_roles
+            case = {"configured": {only: roles}, "asked": other, "token_roles": tok_roles}
+            s.case(case, nontrivial=True)
+            if got != want:
+                s.violate("restricted-but-something-happened" if got else "permitted-but-refused", case,
+                          "with only %r configured, %r for a token with roles %r is %s; the action keeps its built-in requirement (role 'a')" % (only, other, tok_roles, "allowed" if got else "refused"))
+
+    async def uni(backend):
+        import types
+        import aionostr.event as ae
+        env.load_config(authentication={"enabled": True, "actions": {"save": "s", "query": "s"}})
+        env.patch_clock()
+        sc = env.Scratch()
+        st = await (env.sql_storage(sc) if backend == "sql" else env.kv_storage(sc))
+        saved = ae.time
+        ae.time = types.SimpleNamespace(time=env._now)
+        out = []
+        try:
+            for k, x in enumerate(["\u00df", "\u017fx", "\u00b5", "w", "\u0130r", "S\u00df"]):
+                env.set_clock(env.NOW + k)
+                await st.set_auth_roles(env.PUBS[1], x)
+                await env.quiesce(st)
+                out.append((x, "".join(sorted(await st.get_auth_roles(env.PUBS[1])))))
+        finally:
+            ae.time = saved
+            env.set_clock(env.NOW)
+            await env.close(st)
+            sc.close()
+        return out
+
+    async def overlap(backend):
+        env.load_config(authentication={"enabled": True, "actions": {"save": "w", "query": "r"}})
+        env.patch_clock()
+        sc = env.Scratch()
+        st = await (env.sql_storage(sc) if backend == "sql" else env.kv_storage(sc))
+        try:
+            ev = env.mk_event(2, 1, env.NOW - 5, [], "anonymous %d" % rng.randrange(10 ** 6))
+
+            async def anon():
+                await asyncio.sleep(0)
+                r1 = await _submit(st, ev)
+                _, oc = await env.req(st, [{"kinds": [1]}], auth_token={})
+                return r1, oc
+            res = await asyncio.gather(st.set_auth_roles(env.PUBS[0], "w"), st.set_auth_roles(env.PUBS[1], "r"), anon(), return_exceptions=True)
+            await env.quiesce(st)
+            after_ev = await _submit(st, env.mk_event(2, 1, env.NOW - 4, [], "anonymous later %d" % rng.randrange(10 ** 6)))
+            _, after_req = await env.req(st, [{"kinds": [1]}], auth_token={})
+            return {"during": res[2] if not isinstance(res[2], Exception) else repr(res[2]), "enabled_after": bool(st.authenticator.is_enabled),
+                    "event_after": after_ev, "req_after": after_req, "stored": ev["id"] in await env.stored_ids(st)}
+        finally:
+            await env.close(st)
+            sc.close()
+    for backend in backends:
+        for x, got in env.run(uni(backend)):
+            want = "".join(sorted(set(x.lower())))
+            case = {"backend": backend, "assigned": x}
+            s.case(case, nontrivial=x.lower() != x.casefold())
+            if got != want:
+                s.violate("roles-readback-stale", case, "roles assigned as %r read back as %r (expected %r)" % (x, got, want), observed=got)
+        obs = env.run(overlap(backend))
+        case = {"backend": backend, "overlapping_service_writes": 2}
+        s.case(case, nontrivial=True)
+        dur = obs["during"]
+        ok = (isinstance(dur, (tuple, list)) and str(dur[0]).startswith("refused") and str(dur[1]).startswith("notice") and obs["enabled_after"]
+              and str(obs["event_after"]).startswith("refused") and str(obs["req_after"]).startswith("notice") and not obs["stored"])
+        if not ok:
+            s.violate("restricted-but-something-happened", case, "while / after the relay wrote its own role records an anonymous client was not refused: %r" % (obs,), observed=obs)
+    return s
+
+
+# ------------------------------------------------------------------------------------ C11: asking twice with the same filter object
+def suite_filter_object_reuse(tier, seed, backends=("sql", "kv")):
+    s = Suite("oracle:same-filter-object-same-answer")
+    s.rule = ("the internal callers (dynamic lists, service look-ups, run_single_query users) keep their filter dicts and ask again later: validating a "
+              "filter must not change the caller's object, and the same dict asked twice - also after non-matching neighbours were stored in between - "
+              "gives the same answer; filters with #tag conditions, tags + since, ids + kinds; both backends")
+    rng = rng_for(seed, "c11reuse")
+
+    async def one(backend):
+        import copy
+        from nostr_relay.storage.base import NostrQuery
+        env.load_config()
+        env.patch_clock()
+        sc = env.Scratch()
+        st = await (env.sql_storage(sc) if backend == "sql" else env.kv_storage(sc))
+        out = []
+        try:
+            evs = [env.mk_event(i % 3, 1, env.NOW - 50 + i, [["t", "apple" if i % 2 else "pear"], ["p", env.PUBS[i % 3]]], "reuse %d %d" % (i, rng.randrange(10 ** 6))) for i in range(6)]
+            for e in evs:
+                await st.add_event(dict(e))
+            await env.quiesce(st)
+            filters = [{"kinds": [1], "#t": ["apple"]}, {"#t": ["pear"], "since": env.NOW - 49}, {"#p": [env.PUBS[1]], "#t": ["apple", "pear"]}, {"ids": [evs[0]["id"]], "kinds": [1]}]
+            for f in filters:
+                before = copy.deepcopy(f)
+                first = sorted([e.id async for e in st.run_single_query([f])])
+                unchanged1 = f == before
+                for k in range(3):
+                    await st.add_event(env.mk_event(k, 7, env.NOW - 10 + k, [["t", "plum"]], "neighbour %d %d" % (k, rng.randrange(10 ** 6))))
+                    await st.add_event(env.mk_event(k, 1, env.NOW - 10 + k, [["t", "plum"]], "neighbour1 %d %d" % (k, rng.randrange(10 ** 6))))
+                await env.quiesce(st)
+                second = sorted([e.id async for e in st.run_single_query([f])])
+                NostrQuery.model_validate(f)
+                out.append({"filter": before, "object_unchanged": unchanged1 and f == before, "first": first, "second": second})
+        finally:
+            await env.close(st)
+            sc.close()
+        return out
+    for backend in backends:
+        for o in env.run(one(backend)):
+            case = {"backend": backend, "filter": o["filter"]}
+            s.case(case, nontrivial=bool(o["first"]))
+            s.count("object_left_alone" if o["object_unchanged"] else "object_rewritten")
+            if o["first"] != o["second"]:
+                s.violate("c11:frame", case, "asking twice with the same filter object (non-matching events stored in between): answers of %d then %d events; "
+                          "the relay %s the caller's object" % (len(o["first"]), len(o["second"]), "left alone" if o["object_unchanged"] else "rewrote"), observed=o)
+    return s
+
+
+# ------------------------------------------------------------------------------------ C02 / C12 / C13: many REQs at the same moment
+def suite_simultaneous_reqs(tier, seed, backends=("sql", "kv")):
+    s = Suite("oracle:simultaneous-reqs-all-answered-in-full")
+    s.rule = ("14-30 REQs (more than num_concurrent_reqs) for the same and for different filters are opened at the same moment on 3 connections "
+              "(asyncio.gather over BaseStorage.subscribe); every one must receive exactly the answer the same REQ receives alone, followed by its "
+              "EOSE - none may be shed, truncated or answered empty; SQL and LMDB; non-trivial = more REQs in flight than query slots")
+    rng = rng_for(seed, "simreq")
+
+    async def one(backend, n):
+        env.load_config(subscription_limit=64)
+        env.patch_clock()
+        sc = env.Scratch()
+        st = await (env.sql_storage(sc) if backend == "sql" else env.kv_storage(sc))
+        try:
+            evs = [env.mk_event(i % 3, rng.choice([1, 1, 7]), env.NOW - 100 + i, [["t", rng.choice(["x", "y"])]], "sim %d %d" % (i, rng.randrange(10 ** 6))) for i in range(12)]
+            for e in evs:
+                await st.add_event(dict(e))
+            await env.quiesce(st)
+            pool = [{"kinds": [1], "limit": 50}, {"kinds": [7], "limit": 50}, {"#t": ["x"], "limit": 50}, {"authors": [env.PUBS[0]], "limit": 3}, {"kinds": [1, 7], "limit": 2}]
+            alone = {}
+            for k, f in enumerate(pool):
+                got, oc = await env.req(st, [f], sub_id="alone%d" % k)
+                alone[k] = (sorted(e.id for e in got), oc)
+            clients = [env.FakeClient("sim%d" % i) for i in range(3)]
+            picks = [rng.randrange(len(pool)) for _ in range(n)]
+            res = await asyncio.gather(*[env.req(st, [pool[k]], sub_id="r%d" % i, client=clients[i % 3], timeout=30) for i, k in enumerate(picks)])
+            return picks, alone, [(sorted(e.id for e in got), oc) for got, oc in res]
+        finally:
+            await env.close(st)
+            sc.close()
+    for backend in backends:
+        for n in ((14,) if tier == "quick" else (14, 22, 30)):
+            picks, alone, res = env.run(one(backend, n))
+            case = {"backend": backend, "simultaneous": n}
+            s.case(case, nontrivial=n > 10)
+            wrong = [(i, k) for i, (k, r) in enumerate(zip(picks, res)) if r != alone[k]]
+            if wrong:
+                i, k = wrong[0]
+                s.violate("req-shed-or-truncated", dict(case, first_wrong=i), "%d of %d simultaneous REQs were not answered like the same REQ alone (REQ %d: %d events, %s; alone: %d events, %s)"
+                          % (len(wrong), n, i, len(res[i][0]), res[i][1], len(alone[k][0]), alone[k][1]), observed=[(len(r[0]), r[1]) for r in res])
     return s
 
 
@@ -2577,6 +2953,42 @@ async def _frames_for(st, filters, sub_id="fr"):
     return sent
 
 
+async def _frames_for_messages(st, texts):
+    """raw texts through one web.start_client session; waits for as many OK / NOTICE / CLOSED frames as texts were sent"""
+    import falcon
+    from nostr_relay import web
+    from . import relay
+    sent, inbox = [], asyncio.Queue()
+
+    async def ws_send(text):
+        try:
+            sent.append(json.loads(text))
+        except Exception:
+            sent.append("UNPARSABLE")
+
+    async def ws_recv():
+        item = await inbox.get()
+        if item is None:
+            raise falcon.WebSocketDisconnected()
+        return item
+
+    async def ws_close(code=1000):
+        sent.append(["CLOSED", code])
+    env.patch_web_sleep()
+    task = asyncio.create_task(web.start_client(st, ws_send, ws_recv, ws_close, logging.getLogger("verif.msgs"), rate_limiter=relay.NullLimiter(),
+                                                remote_addr="10.6.0.2"))
+    for tx in texts:
+        n0 = len(sent)
+        inbox.put_nowait(tx)
+        for _ in range(5000):
+            await asyncio.sleep(0.002)
+            if any(isinstance(f, list) and f and f[0] in ("OK", "NOTICE", "CLOSED") for f in sent[n0:]) or task.done():
+                break
+    inbox.put_nowait(None)
+    await asyncio.wait([task], timeout=10)
+    return sent
+
+
 def suite_served_is_signed(tier, seed):
     """accepted events over many kinds and tag shapes come back field for field (stored REQ, get_event, live) and still
     verify with the harness's own NIP-01 hash; catches rewriting of an event after verification"""
@@ -2922,6 +3334,11 @@ def registry():
         "oracle:roles-only-from-the-relay": suite_roles_forged,
         "oracle:refusal-is-not-remembered": suite_policy_relaxed,
         "oracle:accepted-relay-urls-stay-as-configured": suite_recipe_relay_urls,
+        "oracle:forged-copy-racing-the-genuine-event": suite_forged_concurrent,
+        "oracle:authorization-corner-cases": suite_authz_corners,
+        "oracle:simultaneous-reqs-all-answered-in-full": suite_simultaneous_reqs,
+        "oracle:same-filter-object-same-answer": suite_filter_object_reuse,
+        "oracle:registrations-dropped-when-the-peer-vanishes": suite_peer_gone,
         "oracle:limit-cap-plain-subscribe": suite_cap_plain_subscribe,
         "oracle:announce-every-accepted-event": suite_announce_all_accepted,
         "oracle:removed-unreachable-after-read": suite_removed_unreachable_after_read,
